@@ -401,6 +401,8 @@ def run_driver(ctx, case):
         want_workers = [w for _h, ws in ma["r"] for w in ws if w]
         if got_workers != want_workers:
             ctx.diff("clients handed to the workers by Driver.start_benchmark", want_workers, got_workers)
+        if len(got_workers) > case["cores"]:
+            ctx.fail(cls + ":more-workers-than-cores", f"the load-driver host has {case['cores']} core(s) but runs {len(got_workers)} workers", case["cores"], got_workers)
         flat = sorted(c for w in got_workers for c in w)
         if flat != list(range(m["clients"])):
             ctx.fail(cls + ":clients-not-all-assigned", "the clients handed to workers are not each client 0..n-1 of the allocation exactly once",
